@@ -26,6 +26,7 @@ Oracle: the surrogate written from the property / docstrings and evaluated on th
       axis 1 / axis -1 of the library's own [batch, ., .] regrouping (explicit index arithmetic here).
   PPO (per inner step)        L = -mean(min(rho*A, clip(rho,1-eps,1+eps)*A)) + vf_lambda*Huber(V,R) - entropy_lambda*mean(H)
       rho = exp(sum_t ll_t - ll_old), A = R - V.detach(), optionally (A-mean A)/(std A + 1e-8)   [ppo.py]
+      (also on 40-60 node instances, where ll_old ~ -log(n!) < -87 and exp(ll) alone underflows in float32)
   StepwisePPO (per mini-batch of buffered transitions)
                               L = -mean(min(rho*A, clip(rho)*A)) + vf_lambda*mean((V-r)^2) - entropy_lambda*mean(H)
       rho = exp(logp(a|s) - logp_old), A = r - V(s).detach(), r = stored step reward (/ int reward_scale); logp and H
@@ -111,6 +112,12 @@ RULE = (
     "HAM/pdp, PointerNetwork, L2DModel/fjsp|jssp with baselines no/mean/exponential/extra, embed 32; A2C / PPO / AMPPO "
     "with critic=None + critic_kwargs; PPO mini_batch_size fallbacks (1.5, -0.5, 0.0, 0, -3); second shared_step on one "
     "PPO / n_step_PPO model; StepwisePPO reward_scale 'norm'|'scale'; SymNCO num_augment=1 / dihedral8 / feats. "
+    "PPO large-instance class (1 case in 16 of the sub ppo on average, plus the sub ppo_large = 24 such cases in every "
+    "quick run): tsp / cvrp with 40-60 nodes, embed 16, 1 layer, B 2-4, one mini-batch, "
+    "one inner epoch, spread 1.0: the old log-likelihood of a sampled tour is about -log(n!) = -100..-180, "
+    "below the float32 exp() range (-87.3 subnormal, -103.3 zero); same assertions as every PPO case (rho == 1, loss "
+    "value, gradient against the log-space reference rho = exp(ll_new - ll_old)); events large_instance|ll<-87 (all "
+    "rows below -87), |some_ll<-87, |ll>=-87, |env=. "
     "Non-trivial = B >= 3 with non-constant rewards (and, for stateful baselines exponential/mean/warmup/scalers, "
     ">= 2 successive steps); stepwise_ppo: some mini-batch of >= 3 rows with non-constant step rewards; nstep_ppo: "
     "some inner step with n_step*B >= 3 rows and non-constant n-step returns; distinct = distinct case hash."
@@ -123,6 +130,11 @@ ASSUMPTIONS = [
     "PPO with mini-batches smaller than the batch uses instance/layer normalisation (batch-norm statistics depend on "
     "the mini-batch, so rho == 1 is not expected there); with normalize_adv every mini-batch has >= 2 rows",
     "PPO entropy H is the policy's own `entropy` output; advantage normalisation uses the unbiased std + 1e-8 as coded",
+    "PPO on 40-60 nodes: the property's ratio is exp(new log-likelihood - old log-likelihood), a difference of two sums "
+    "of step log-probabilities near -150: finite and equal to 1 before the first update although neither probability is "
+    "representable in float32; a NaN / inf loss or gradient there is a violation (loss_value / grad_nonfinite). The "
+    "stepwise / n-step variants form their ratio from the log-probability of ONE action (|log p| <= log of the number "
+    "of actions), which no instance size moves towards the exp() range: no size class there",
     "an explicit CriticNetwork is supplied (note O4) except on the critic=None routes, where critic_kwargs carry the "
     "policy's embed_dim (the default 128 does not fit a small policy) and the built critic must be a CriticNetwork around "
     "an independent copy of the actor's encoder",
@@ -280,8 +292,35 @@ def a2c_cases(draw, tier="quick"):
     return c
 
 
+LL_UNDERFLOW = -87.0  # exp() of a float32 below about -87.3 is subnormal, below -103.3 it is 0
+
+
+@st.composite
+def ppo_large_cases(draw):
+    """Size class 40-60 nodes (TSP and CVRP = a routing env with a depot): the log-likelihood of a sampled tour is about
+    -log(n!) = -100 .. -180 there, far below the float32 exp() range, so the ratio must be formed in log space
+    (rho = exp(ll_new - ll_old), as the property states).  Tiny policy, batch 2-4, ONE mini-batch and ONE inner epoch."""
+    B = draw(st.sampled_from([2, 3, 3, 4, 4]))
+    return dict(
+        env=draw(st.sampled_from(["tsp", "cvrp"])), n=draw(st.integers(40, 60)), B=B, E=16, L=1,
+        H=draw(st.sampled_from([1, 2])), norm=draw(st.sampled_from(["batch", "instance", "layer"])),
+        # unscaled parameters keep the policy close to uniform: log-likelihood near -log(n!) (with spread 1.5 a TSP-40
+        # tour comes out at -57..-72, above the range this class is about)
+        spread=1.0, wseed=draw(SEED),
+        mb=draw(st.sampled_from([1.0, B, B + 3])), mb_mode="full", m=B, normalize_adv=draw(st.booleans()), ppo_epochs=1,
+        clip=draw(st.sampled_from([0.05, 0.1, 0.2, 0.3])), vf_lambda=draw(st.sampled_from([0.0, 0.5, 1.0, 2.5])),
+        entropy_lambda=draw(st.sampled_from([0.0, 0.1])), max_grad_norm=draw(st.sampled_from([None, 0.5])),
+        opt=draw(st.sampled_from(["noop", "noise"])), sigma=0.02, shared_encoder=draw(st.booleans()),
+        dseed=draw(SEED), sseed=draw(SEED), large=True,
+    )
+
+
 @st.composite
 def ppo_cases(draw, tier="quick"):
+    # a few percent of the PPO cases (1 in 16 on average; Hypothesis clusters its draws: 2..34 of 288 over 40 seeds)
+    # belong to the large-instance class; the sub `ppo_large` guarantees a fixed number of them in every run
+    if draw(st.sampled_from([False] * 15 + [True])):
+        return draw(ppo_large_cases())
     B = draw(st.integers(3, 8))
     mode = draw(st.sampled_from(["full", "frac", "int", "fallback"]))
     normalize = draw(st.booleans())
@@ -1153,6 +1192,9 @@ def exec_ppo(case, ctx):
                   "mini-batch reward is not the objective of the row's stored actions", {"R": R, "ref": ref_R})
         ll64, V64, R64, H64 = ll.detach().double(), V.detach().double().squeeze(-1), R.double(), H.detach().double()
         rho64 = torch.exp(ll64.sum(-1) - lp_old.double())
+        if case.get("large"):
+            state["min_old_ll"] = min(state.get("min_old_ll", 0.0), float(lp_old.min()))
+            state["max_old_ll"] = max(state.get("max_old_ll", -math.inf), float(lp_old.max()))
         if opt.n == state["start_n"]:  # no optimiser step yet within this shared_step
             # float32 rounding of the summed log-probabilities: the sampling pass runs on the whole batch, the
             # evaluation pass on a shuffled mini-batch (other kernel shapes / accumulation orders, amplified by the
@@ -1226,6 +1268,14 @@ def exec_ppo(case, ctx):
         if k:
             ctx.event("second_shared_step" + ("_after_parameter_change" if case["opt"] == "noise" else ""))
     Rall = torch.cat(state["Rall"][:n_mb])
+    if case.get("large"):
+        # counted by what the old log-likelihoods really are: all rows / some row below the float32 exp() range
+        lo, hi = state["min_old_ll"], state["max_old_ll"]
+        ctx.event("large_instance|" + ("ll<-87" if hi < LL_UNDERFLOW else "some_ll<-87" if lo < LL_UNDERFLOW
+                                       else "ll>=-87"))
+        if lo < -103.3:
+            ctx.event("large_instance|some_ll<-103.3 (float32 exp() is exactly 0)")
+        ctx.event(f"large_instance|env={case['env']}")
     ctx.event(f"mb={'full' if m_eff == B else 'partial'}")
     ctx.event(f"opt={case['opt']}")
     ctx.event(f"entropy={'on' if case['entropy_lambda'] else 'off'}")
@@ -1401,6 +1451,9 @@ SUBS = [
         budget={"quick": 144, "thorough": 600}, shards=4, shrink=False, minimize=_minimize),
     Sub("ppo", exec_ppo, strategy=lambda tier: ppo_cases(tier),
         budget={"quick": 288, "thorough": 1200}, shards=8, shrink=False, minimize=_minimize, weight=2.0),
+    # the large-instance class of `ppo` alone (same executor): a guaranteed number of cases per run
+    Sub("ppo_large", exec_ppo, strategy=lambda tier: ppo_large_cases(),
+        budget={"quick": 24, "thorough": 160}, shards=4, shrink=False, minimize=_minimize),
     Sub("rollout_eval", exec_rollout_eval, strategy=lambda tier: rollout_eval_cases(tier),
         budget={"quick": 144, "thorough": 800}, shards=8, shrink=False, minimize=_minimize),
     # zoo models with their own loss / rollout layout (vf/c16_zoo_loss.py)
